@@ -702,6 +702,7 @@ func (p *Parser) parseDefaultCommodityDirective(startPos Position) ast.Directive
 	case TokenCommodity:
 		symbol := p.current.Value
 		dir.Symbol = symbol
+		dir.SymbolRange = ast.Range{Start: toASTPosition(p.current.Pos), End: toASTPosition(p.current.End)}
 		p.advance()
 
 		if p.current.Type == TokenNumber {
@@ -715,6 +716,7 @@ func (p *Parser) parseDefaultCommodityDirective(startPos Position) ast.Directive
 
 		if p.current.Type == TokenCommodity || p.current.Type == TokenText {
 			dir.Symbol = p.current.Value
+			dir.SymbolRange = ast.Range{Start: toASTPosition(p.current.Pos), End: toASTPosition(p.current.End)}
 			dir.Format = number + " " + p.current.Value
 			p.advance()
 		}
